@@ -302,21 +302,37 @@ func TestVerifC10APIChild(t *testing.T) {
 			}
 			if json.Unmarshal(man, &mf) == nil {
 				var sizes, media, exact []string
+				start := int64(0) // model layers are created in upload order: layer i starts where layer i-1 ended
 				for _, l := range mf.Layers {
 					switch l.MediaType {
 					case "application/vnd.ollama.image.model", "application/vnd.ollama.image.adapter", "application/vnd.ollama.image.projector":
 						sizes = append(sizes, strconv.FormatInt(l.Size, 10))
 						media = append(media, l.MediaType[len("application/vnd.ollama.image."):][:1])
-						// C05: a layer cut out of an upload is exactly one model: decoding the layer's own blob ends at its size
+						// C05: a layer cut out of an upload is exactly one model.  Judged at the position the model has IN THE
+						// UPLOAD (the decoder pads to absolute file offsets, so a layer that started at an unaligned offset need
+						// not decode to the same extent on its own): decoding the upload from the layer's start must end at the
+						// layer's end — or beyond the end of the upload when the upload is cut inside this model's tensor data
+						// (the decoder seeks over tensor data; create kept everything that is there) — and the layer blob must hold
+						// exactly those bytes of the upload.
 						ex := "?"
 						if lb, err := os.ReadFile(filepath.Join(os.Getenv("OLLAMA_MODELS"), "blobs", strings.Replace(l.Digest, ":", "-", 1))); err == nil {
-							if _, end, err := ggml.Decode(bytes.NewReader(lb), 0); err == nil && end == int64(len(lb)) {
+							rd := bytes.NewReader(data)
+							rd.Seek(start, io.SeekStart)
+							_, end, derr := ggml.Decode(rd, 0)
+							stop := start + int64(len(lb))
+							switch {
+							case int64(len(lb)) != l.Size || stop > int64(len(data)) || !bytes.Equal(lb, data[start:stop]):
+								ex = fmt.Sprintf("0(layer of %d bytes is not bytes [%d,%d) of the upload)", len(lb), start, stop)
+							case derr == nil && end == stop:
 								ex = "1"
-							} else {
-								ex = fmt.Sprintf("0(end=%d,size=%d)", end, len(lb))
+							case derr == nil && end > stop && stop == int64(len(data)):
+								ex = "t"
+							default:
+								ex = fmt.Sprintf("0(start=%d,end=%d,size=%d,err=%v)", start, end, len(lb), derr)
 							}
 						}
 						exact = append(exact, ex)
+						start += l.Size
 					}
 				}
 				fmt.Printf("VERIF layers=%s media=%s\n", strings.Join(sizes, ","), strings.Join(media, ","))
@@ -473,7 +489,8 @@ func TestVerifC10API(t *testing.T) {
 			case strings.HasPrefix(r.res, "hang"):
 				impl = "loop"
 			}
-			out.Case(fmt.Sprintf("gguf-%s %s", strings.TrimPrefix(r.mode, "create"), zzverif.Hex(files[r.idx])), impl)
+			// the installed blob is an os.File: the model takes the file system's largest seekable offset like `gguf-layers`
+			out.Case(fmt.Sprintf("gguf-%s %d %s", strings.TrimPrefix(r.mode, "create"), maxSeek, zzverif.Hex(files[r.idx])), impl)
 		}
 		fmt.Fprintf(os.Stderr, "c10-api %s #%d: %s\n", r.mode, r.idx, r.res)
 	}
